@@ -55,7 +55,7 @@ def runToken (c : Ctx) : List UEv → Cls × Ctx
 def runUnf (t : Option GoType) (init : GoVal) (cache : Option Int) (xs : List XEv) (whatIf : Bool := true) : Option (String × String) :=
   let fresh : Ctx := { newUnfolder with whatIfFixed := whatIf }
   -- `none`: NewUnfolder(nil), no SetTarget
-  match (match t with | some t => setTarget t init fresh | none => .ok fresh) with
+  match (match t with | some t => setTarget structTable t init fresh | none => .ok fresh) with
   | .error _ => none
   | .ok c0 =>
     let c0 := match cache with
@@ -91,7 +91,7 @@ def balanced (xs : List XEv) : Bool :=
 
 /-- one document of `unf-reuse` -/
 def runDoc (c : Ctx) (t : GoType) (abandon : Option Nat) (xs : List XEv) : Option (String × Ctx) :=
-  match setTarget t (zero t) c with
+  match setTarget structTable t (zero structTable t) c with
   | .error _ => none
   | .ok c1 =>
     let dSet := showDepths c1
@@ -183,7 +183,7 @@ def opUnf (args : List String) (impl : String) : Result :=
             match Spec.sbuild evs with
             | none => []
             | some tree =>
-              match Spec.expected t init tree with
+              match Spec.expected structTable t init tree with
               | none => []
               | some want =>
                 if !results.all (· == "ok") then
@@ -211,7 +211,7 @@ def opUnfWhatIf (args : List String) (impl : String) : Result :=
     | some t, some xs =>
       match parseValStr structTable t initS, Spec.sbuild (expandAll xs) with
       | some init, some tree =>
-        match Spec.expected t init tree, runUnf (some t) init none xs true with
+        match Spec.expected structTable t init tree, runUnf (some t) init none xs true with
         | some want, some (_, final) =>
           match parseValStr structTable t final with
           | some got => { model := some (if Spec.sameVal got want then impl else s!"repaired-mirror={final} want={(Spec.norm want).print}") }
@@ -233,7 +233,7 @@ def opUnfClaim (args : List String) (_impl : String) : Result :=
       if !(WF1 evs && btsValid evs && numsValid evs) then { model := some "notwf" } else
       match parseValStr structTable t initS, Spec.sbuild evs with
       | some init, some tree =>
-        { model := some (if (Spec.expected t init tree).isSome then "claim" else "noclaim") }
+        { model := some (if (Spec.expected structTable t init tree).isSome then "claim" else "noclaim") }
       | _, _ => noModel
     | _, _ => noModel
   | _ => noModel
@@ -295,11 +295,38 @@ def opUnfReuse (args : List String) (impl : String) : Result :=
     | _, _ => noModel
   | _ => noModel
 
+/-- unf-seq <type>,<type>,…: SetTarget of each type in turn on ONE unfolder (its type registry
+survives); a refused type must leave nothing half-built behind (C14) -/
+def opUnfSeq (args : List String) (impl : String) : Result :=
+  match args with
+  | [tsS] =>
+    match allSome ((tsS.splitOn ",").map (parseTypeStr structTable)) with
+    | some ts =>
+      let rec go (c : Ctx) (acc : List String) : List GoType → List String
+        | [] => acc.reverse
+        | t :: r =>
+          match setTarget structTable t (zero structTable t) c with
+          | .ok c' => go (reset c') ("ok" :: acc) r
+          | .error _ => go (reset c) ("err" :: acc) r
+      let model := ",".intercalate (go newUnfolder [] ts)
+      -- oracle: whether a type is accepted does not depend on what the unfolder has seen before
+      let alone := ts.map fun t =>
+        match setTarget structTable t (zero structTable t) newUnfolder with | .ok _ => "ok" | .error _ => "err"
+      let fails :=
+        if isBadObs impl then [s!"C14 unfold-settarget-{impl} types={tsS}"]
+        else if impl.splitOn "," != alone && impl != "bad-type" then
+          [s!"C17 settarget-depends-on-earlier-targets types={tsS} got={impl}"]
+        else []
+      { model := some model, fails := fails }
+    | none => noModel
+  | _ => noModel
+
 /-- unf-type <type>: the Lean descriptor of a menagerie type = what reflect reports -/
 def opUnfType (args : List String) (_impl : String) : Result :=
   match args with
   | [tS] =>
     match parseTypeStr structTable tS with
+    | some (.ref n) => { model := (structTable n).map GoType.describe }
     | some t => { model := some t.describe }
     | none => noModel
   | _ => noModel
